@@ -58,8 +58,7 @@ theorem errorSites_eq : Generated.errorSites =
 
 /-- shared package-level state of the library: only these variables exist -/
 theorem packageVars_eq : Generated.packageVars =
-    ["AccumulatedCopySizeLimit", "ErrBadJSONDoc", "ErrBadJSONPatch", "SupportNegativeIndices", "endArray",
-     "endObject", "errBadMergeTypes", "startArray", "startObject"] := rfl
+        ["AccumulatedCopySizeLimit", "ErrBadJSONDoc", "ErrBadJSONPatch", "ErrExpectedObject", "ErrInvalid", "ErrInvalidIndex", "ErrMissing", "ErrTestFailed", "ErrUnknownType", "SupportNegativeIndices", "endArray", "endObject", "errBadMergeTypes", "rawJSONArray", "rawJSONNull", "rawJSONObject", "rfc6901Decoder", "startArray", "startObject"] := rfl
 
 /-- L2: the order list `keys` is mentioned only by these functions of the library -/
 theorem keysMentions_eq : Generated.keysMentions = ["TrustMarshalJSON", "UnmarshalJSON", "mergeDocs", "remove", "set"] := rfl
